@@ -195,6 +195,17 @@ pub fn judge(prop: &str, bytes: &[u8], words_entry: bool, step: usize, cov: &mut
                             lcode,
                         );
                     }
+                    // the rendered one-line message must name the same instruction number and offset as the value
+                    if let (Some(i), Some(o)) = (c.index, c.offset) {
+                        let msg = format!("{}", e);
+                        if !msg.contains(&format!("#{} ", i)) && !msg.ends_with(&format!("#{}", i)) || !msg.contains(&format!("offset {}", o)) {
+                            return (
+                                mk("reject.message", format!("class={}", got.name()), format!("error value {} is rendered as {:?}: the message must name instruction #{} and offset {}", c.text, msg, i, o)),
+                                ocode,
+                                lcode,
+                            );
+                        }
+                    }
                     if let Some(i) = c.index {
                         if i != r.index {
                             return (
